@@ -24,8 +24,8 @@ theorem pc_idle {cfg : Cfg} {d : Dev} {v v' : CV} (p : PC cfg d v) (hb : v.backl
 
 theorem takeServiceReq_ok {cfg : Cfg} {s : State} {i : Nat} {c : Client} (newSv strict : Nat) (h : Core cfg s)
     (hi : s.clients[i]? = some c) (hb : c.backlog = 0) :
-    Core cfg (takeServiceReq cfg s i newSv strict).1 ∧ Settled cfg (takeServiceReq cfg s i newSv strict).1 ∧
-      ∃ c', (takeServiceReq cfg s i newSv strict).1.clients[i]? = some c' ∧ c'.backlog = 0 ∧ c'.state = c.state := by
+    ∃ r, takeServiceReq cfg s i newSv strict = .ok r ∧ Core cfg r.1 ∧ Settled cfg r.1 ∧
+      ∃ c', r.1.clients[i]? = some c' ∧ c'.backlog = 0 ∧ c'.state = c.state := by
   unfold takeServiceReq
   simp only [hi]
   generalize hsv : (List.range nStrict).map (fun st =>
@@ -36,16 +36,19 @@ theorem takeServiceReq_ok {cfg : Cfg} {s : State} {i : Nat} {c : Client} (newSv 
     have pc := h.pc _ (mem_of_getElem?_eq (views_getElem? hi))
     refine coreV_set h (views_getElem? hi) rfl ?_
     exact ⟨pc.sub, fun _ => Or.inr hb, pc.w, pc.so, pc.gh, pc.ov⟩
-  obtain ⟨hc1, hs1, hk1⟩ := updateServices_ok (some c.id) hcore0
-  generalize hr : updateServices cfg (setClient s i { c with services := sv }) (some c.id) = r at hc1 hs1 hk1
+  obtain ⟨r, hr, hc1, hs1, hk1⟩ := updateServices_ok (some c.id) hcore0
+  rw [hr]
   obtain ⟨s1, res⟩ := r
   simp only at hc1 hs1 hk1 ⊢
-  obtain ⟨c1, hi1, hb1, hst1, _, _⟩ := hk1.getElem? (setClient_getElem? (c' := { c with services := sv }) hi)
+  obtain ⟨c1, hi1, hb1, hst1, _, _⟩ := hk1.2 i _ (setClient_getElem? (c' := { c with services := sv }) hi)
   simp only [hi1]
   have hsame : (if s1.dev.opened = true then { c1 with maxLines := cfg.count s1.dev.active } else c1).view = c1.view := by
     split <;> rfl
-  refine ⟨hc1.setClient_same hi1 hsame, hs1.setClient_same hi1 hsame, _, setClient_getElem? hi1, ?_, ?_⟩
-  · split <;> exact hb1.trans hb
+  have hb1' : c1.backlog = 0 := by
+    have : c1.backlog ≤ c.backlog := hb1
+    omega
+  refine ⟨_, rfl, hc1.setClient_same hi1 hsame, hs1.setClient_same hi1 hsame, _, setClient_getElem? hi1, ?_, ?_⟩
+  · split <;> exact hb1'
   · split <;> exact hst1
 
 /-! ## the CONNECT_REQ / SERVICE_REQ / CLOSE_REQ arms of `vbi_proxyd_take_message` -/
@@ -82,10 +85,9 @@ theorem takeMessage_ok {cfg : Cfg} {s : State} {i : Nat} (m : InMsg) (h : Core c
           refine pc_idle pc hb0 hb0 rfl rfl ?_ (fun hh => by cases hh)
           show ((CState.forward == CState.forward) && (c.allServices != 0)) = false
           rw [ha0]; rfl
-        obtain ⟨hc1, hs1, c1, hi1, hb1, hst1⟩ := takeServiceReq_ok sv st hcore0
+        obtain ⟨r, hr, hc1, hs1, c1, hi1, hb1, hst1⟩ := takeServiceReq_ok sv st hcore0
           (setClient_getElem? (c' := { c with state := .forward, bufferCount := bc }) hi) hb0
-        simp only [takeMessage, hi, hne, Bool.false_eq_true, if_false]
-        generalize hr : takeServiceReq cfg (setClient s i { c with state := .forward, bufferCount := bc }) i sv st = r at hc1 hs1 hi1
+        simp only [takeMessage, hi, hne, Bool.false_eq_true, if_false, hr]
         obtain ⟨s1, ok⟩ := r
         simp only at hc1 hs1 hi1 ⊢
         simp only [hi1]
@@ -125,7 +127,7 @@ theorem takeMessage_ok {cfg : Cfg} {s : State} {i : Nat} (m : InMsg) (h : Core c
             Core cfg s1 ∧ ∃ c1, s1.clients[i]? = some c1 ∧ c1.backlog = 0 ∧ c1.state = c.state := by
           cases reset with
           | false =>
-            obtain ⟨s1, hr, hc1, _, _, _, _, hk⟩ := releaseOwn_ok (cfg := cfg) (s := s) (i := i) (fate := Fate.svcChange) trivial h
+            obtain ⟨s1, hr, hc1, _, _, _, _, hk, _, _⟩ := releaseOwn_ok (cfg := cfg) (s := s) (i := i) (fate := Fate.svcChange) trivial h
             obtain ⟨c1, hi1, hb1, hst1, _⟩ := hk c hi
             exact ⟨s1, by simpa using hr, hc1, c1, hi1, hb1, hst1⟩
           | true =>
@@ -156,8 +158,8 @@ theorem takeMessage_ok {cfg : Cfg} {s : State} {i : Nat} (m : InMsg) (h : Core c
         obtain ⟨s1, hr1, hc1, c1, hi1, hb1, hst1⟩ := hrel
         rw [hr1]
         simp only
-        obtain ⟨hc2, hs2, c2, hi2, _, _⟩ := takeServiceReq_ok sv st hc1 hi1 hb1
-        generalize hr : takeServiceReq cfg s1 i sv st = r at hc2 hs2 hi2
+        obtain ⟨r, hr, hc2, hs2, c2, hi2, _, _⟩ := takeServiceReq_ok sv st hc1 hi1 hb1
+        rw [hr]
         obtain ⟨s2, ok⟩ := r
         simp only at hc2 hs2 hi2 ⊢
         simp only [hi2]
@@ -318,7 +320,7 @@ theorem settledV_erase {cfg : Cfg} {d : Dev} {vs : List CV} {i : Nat} {v : CV} (
     apply orAll_eraseIdx
     rw [List.getElem?_map, hi, ← hc]; rfl
   exact ⟨fun u hu' => h.gs u (List.mem_of_mem_eraseIdx hu'), fun ho => by rw [hu]; exact h.os ho,
-         fun ho => by rw [hu]; exact h.un ho⟩
+         fun ho => by rw [hu]; exact h.un ho, h.lines⟩
 
 theorem clientLoop_ok (cfg : Cfg) : ∀ (fuel : Nat) (s : State) (i : Nat), Core cfg s → Settled cfg s →
     ∃ s', clientLoop cfg fuel s i = .ok s' ∧ Core cfg s' ∧ Settled cfg s' := by
@@ -370,7 +372,8 @@ theorem clientLoop_ok (cfg : Cfg) : ∀ (fuel : Nat) (s : State) (i : Nat), Core
             exact ih _ i hc2 hs2
           · have ha' : (c.allServices != 0) = true := by simp [ha]
             simp only [ha', if_true]
-            obtain ⟨hc3, hs3, _⟩ := updateServices_ok (cfg := cfg) none hc2
+            obtain ⟨r, hr, hc3, hs3, _⟩ := updateServices_ok (cfg := cfg) none hc2
+            rw [hr]
             exact ih _ i hc3 hs3
         · have hcl' : (c.state == CState.closed) = false := by simp [hcl]
           simp only [hcl', Bool.false_eq_true, if_false]
@@ -417,7 +420,7 @@ theorem append_fresh {cfg : Cfg} {s : State} (c : Client) (h : Core cfg s) (hs :
     show SettledV cfg s.dev ((s.clients ++ [c]).map Client.view)
     rw [List.map_append]
     have hc0 : contrib c.view = 0 := by rw [hv]; rfl
-    refine ⟨?_, fun ho => ?_, fun ho => ?_⟩
+    refine ⟨?_, fun ho => ?_, fun ho => ?_, hs.lines⟩
     · intro u hu hf
       rcases List.mem_append.mp hu with h1 | h1
       · exact hs.gs u h1 hf
@@ -488,7 +491,7 @@ theorem step_ok {cfg : Cfg} {s : State} (op : Op) (h : Core cfg s) (hs : Settled
     exact ⟨_, rfl, h1, h2⟩
   | cap ts lines full =>
     refine ⟨_, rfl, ?_, ?_⟩
-    · unfold Core; exact CoreV.of_dev_eq h rfl rfl rfl rfl rfl rfl
+    · unfold Core; exact CoreV.of_dev_eq h rfl rfl rfl rfl
     · unfold Settled; exact SettledV.congr_dev hs rfl rfl
   | relall =>
     obtain ⟨h1, h2⟩ := releaseAll_ok h hs
@@ -497,8 +500,8 @@ theorem step_ok {cfg : Cfg} {s : State} (op : Op) (h : Core cfg s) (hs : Settled
 
 theorem init_ok (cfg : Cfg) : Core cfg init ∧ Settled cfg init := by
   constructor
-  · exact ⟨QInv_nil [] (fun b hb => (by cases hb)), fun v hv => (by cases hv), rfl, fun ho => (by cases ho), fun ho => (by cases ho)⟩
-  · exact ⟨fun v hv => (by cases hv), fun ho => (by cases ho), fun ho => (by cases ho)⟩
+  · exact ⟨QInv_nil [] (fun b hb => (by cases hb)), fun v hv => (by cases hv), rfl, fun ho => (by cases ho)⟩
+  · exact ⟨fun v hv => (by cases hv), fun ho => (by cases ho), fun ho => (by cases ho), fun ho => (by cases ho)⟩
 
 /-- THE LIFTING THEOREM: from any state satisfying the invariant, no history of ops fails, and the invariant
 holds at the end -/
